@@ -288,6 +288,15 @@ type msgpipelineDelivery struct {
 }
 
 func (dd *msgpipelineDelivery) AddRcpt(ctx context.Context, to string, opts smtp.RcptOptions) error {
+	return dd.addRcpt(ctx, to, to, opts)
+}
+
+// addRcpt is AddRcpt with the address the sender used for the recipient
+// (senderTo) given separately: a pipeline that hands a recipient it has
+// rewritten to a nested pipeline (reroute) passes the sender's address along,
+// so that a further rewrite in the nested pipeline is recorded in
+// OriginalRcpts under that address and not under the intermediate one.
+func (dd *msgpipelineDelivery) addRcpt(ctx context.Context, to, senderTo string, opts smtp.RcptOptions) error {
 	dd.rcptPassedOn = false
 
 	if err := dd.checkRunner.checkRcpt(ctx, dd.d.globalChecks, to); err != nil {
@@ -357,8 +366,8 @@ func (dd *msgpipelineDelivery) AddRcpt(ctx context.Context, to string, opts smtp
 				})
 			}
 
-			if originalTo != to {
-				dd.msgMeta.OriginalRcpts[to] = originalTo
+			if senderTo != to {
+				dd.msgMeta.OriginalRcpts[to] = senderTo
 			}
 
 			for _, tgt := range rcptBlock.targets {
@@ -384,8 +393,13 @@ func (dd *msgpipelineDelivery) AddRcpt(ctx context.Context, to string, opts smtp
 				}
 				delivery.originalRcpts[to] = append(delivery.originalRcpts[to], originalTo)
 
-				if err := delivery.AddRcpt(ctx, to, opts); err != nil {
-					nested, isNested := delivery.Delivery.(*msgpipelineDelivery)
+				nested, isNested := delivery.Delivery.(*msgpipelineDelivery)
+				if isNested {
+					err = nested.addRcpt(ctx, to, senderTo, opts)
+				} else {
+					err = delivery.AddRcpt(ctx, to, opts)
+				}
+				if err != nil {
 					if isNested && nested.rcptPassedOn {
 						dd.rcptPassedOn = true
 					} else {
